@@ -62,16 +62,21 @@ func bandwidth(segments []muxerSegment) (int, int) {
 
 	for _, seg := range segments {
 		if _, ok := seg.(*muxerGap); !ok {
-			bandwidth := 8 * seg.getSize() * uint64(time.Second) / uint64(seg.getDuration())
-			if bandwidth > maxBandwidth {
-				maxBandwidth = bandwidth
+			if seg.getDuration() > 0 {
+				bandwidth := 8 * seg.getSize() * uint64(time.Second) / uint64(seg.getDuration())
+				if bandwidth > maxBandwidth {
+					maxBandwidth = bandwidth
+				}
 			}
 			sizes += seg.getSize()
 			durations += seg.getDuration()
 		}
 	}
 
-	averageBandwidth := 8 * sizes * uint64(time.Second) / uint64(durations)
+	var averageBandwidth uint64
+	if durations > 0 {
+		averageBandwidth = 8 * sizes * uint64(time.Second) / uint64(durations)
+	}
 
 	return int(maxBandwidth), int(averageBandwidth)
 }
